@@ -1,4 +1,4 @@
-(** C18 — finite theorems over the generated site / validator tables and the reviewed disposition table. *)
+(** C18 — finite theorems over the generated site / validator / guard / schema tables and the reviewed disposition table. *)
 From Coq Require Import List String Bool.
 From PintV Require Import Common.Bytes Gen.Tables Gen.C18 Model.TemplatedRegexpSites.
 Import ListNotations.
@@ -17,37 +17,93 @@ Proof. vm_compute. reflexivity. Qed.
 Lemma helper_validators_backed : forallb helper_validator_backed helper_validators = true.
 Proof. vm_compute. reflexivity. Qed.
 
-(** the open known findings whose class is a crash at a reviewed site (edited together with known_findings.d/C18.json) *)
-Definition known_crash_findings : list string := [].
-
-Lemma crash_rows_exactly : crash_findings = known_crash_findings.
+Lemma all_blocks_validated : forallb block_validated config_blocks = true.
 Proof. vm_compute. reflexivity. Qed.
 
-Lemma crash_rows_are_listed : forallb (fun f => mem_str f known_crash_findings) crash_findings = true.
+Lemma all_blocks_reachable : forallb block_reachable config_blocks = true.
 Proof. vm_compute. reflexivity. Qed.
 
-Lemma site_ok_spec s : site_ok s = true ->
-  exists d, disposition_of s = Some d /\
-    match d with
-    | ValidatedSame vf vc va g =>
-        callee_compatible (ds_callee s) vc = true /\
-        exists v, In v validators /\ v_func v = vf /\ v_callee v = vc /\ v_arg v = va /\ (g = false -> v_guard v = "")
-    | ValidatedWrapped vf vc va _ =>
-        exists v, In v validators /\ v_func v = vf /\ v_callee v = vc /\ v_arg v = va /\ v_guard v = ""
-    | _ => True
-    end.
+(** unfolding of the boolean checks into statements about the generated tables *)
+
+Lemma has_validator_spec vf vc va ng : has_validator vf vc va ng = true ->
+  exists v, In v validators /\ v_func v = vf /\ v_callee v = vc /\ v_arg v = va /\ (ng = true -> v_guard v = "").
+Proof.
+  unfold has_validator. intro H. apply existsb_exists in H. destruct H as [v [Hin Hv]].
+  apply andb_true_iff in Hv. destruct Hv as [Hv Hg].
+  apply andb_true_iff in Hv. destruct Hv as [Hv Ha].
+  apply andb_true_iff in Hv. destruct Hv as [Hf Hc].
+  apply String.eqb_eq in Hf. apply String.eqb_eq in Hc. apply String.eqb_eq in Ha.
+  exists v. repeat split; try assumption.
+  intro E. subst ng. cbn [negb orb] in Hg. apply String.eqb_eq. exact Hg.
+Qed.
+
+(** every occurrence of site [s] in the source is under a guard `X.f != ""` *)
+Definition all_uses_guarded_on (s : dropped_site) (f : string) : Prop :=
+  guards_of s <> [] /\ forall g, In g (guards_of s) -> g <> "" /\ after_dot g = f.
+
+Lemma used_only_when_nonempty_spec s f : used_only_when_nonempty s f = true -> all_uses_guarded_on s f.
+Proof.
+  unfold used_only_when_nonempty, all_uses_guarded_on. intro H. apply andb_true_iff in H. destruct H as [Hne Hall].
+  split.
+  - destruct (guards_of s); [discriminate|]. discriminate.
+  - intros g Hg. pose proof (proj1 (forallb_forall _ _) Hall g Hg) as Hx. cbn beta in Hx.
+    apply andb_true_iff in Hx. destruct Hx as [H1 H2]. split.
+    + intro E. subst g. discriminate.
+    + apply String.eqb_eq. exact H2.
+Qed.
+
+Lemma validator_covers_spec s vf vc va : validator_covers s vf vc va = true ->
+  exists v, In v validators /\ v_func v = vf /\ v_callee v = vc /\ v_arg v = va /\
+            (v_guard v = "" \/ all_uses_guarded_on s (after_dot (v_guard v))).
+Proof.
+  unfold validator_covers. intro H. apply existsb_exists in H. destruct H as [v [Hin Hv]].
+  apply andb_true_iff in Hv. destruct Hv as [Hv Hg].
+  apply andb_true_iff in Hv. destruct Hv as [Hv Ha].
+  apply andb_true_iff in Hv. destruct Hv as [Hf Hc].
+  apply String.eqb_eq in Hf. apply String.eqb_eq in Hc. apply String.eqb_eq in Ha.
+  exists v. repeat split; try assumption.
+  apply orb_true_iff in Hg. destruct Hg as [Hg|Hg].
+  - left. apply String.eqb_eq. exact Hg.
+  - right. apply used_only_when_nonempty_spec. exact Hg.
+Qed.
+
+(** what a disposition claims about the generated tables *)
+Definition disposition_holds (s : dropped_site) (d : disposition) : Prop :=
+  match d with
+  | ValidatedSame vf vc va =>
+      callee_compatible (ds_callee s) vc = true /\
+      exists v, In v validators /\ v_func v = vf /\ v_callee v = vc /\ v_arg v = va /\
+                (v_guard v = "" \/ all_uses_guarded_on s (after_dot (v_guard v)))
+  | ValidatedDefaulted vf vc va _ =>
+      callee_compatible (ds_callee s) vc = true /\
+      exists v, In v validators /\ v_func v = vf /\ v_callee v = vc /\ v_arg v = va
+  | ValidatedWrapped vf vc va _ =>
+      exists v, In v validators /\ v_func v = vf /\ v_callee v = vc /\ v_arg v = va /\ v_guard v = ""
+  | ZeroValue _ | RuleData _ | Constant _ | Harmless _ | HelperDef _ | CliFlag _ => True
+  end.
+
+Lemma site_ok_spec s : site_ok s = true -> exists d, disposition_of s = Some d /\ disposition_holds s d.
 Proof.
   unfold site_ok. destruct (disposition_of s) as [d|]; [|discriminate]. intro H. exists d. split; [reflexivity|].
-  destruct d; try exact I.
+  destruct d; cbn [disposition_holds]; try exact I.
+  - apply andb_true_iff in H. destruct H as [Hc Hv]. split; [exact Hc|]. apply validator_covers_spec. exact Hv.
   - apply andb_true_iff in H. destruct H as [Hc Hv]. split; [exact Hc|].
-    unfold has_validator in Hv. apply existsb_exists in Hv. destruct Hv as [v [Hin Hv]].
-    repeat (apply andb_true_iff in Hv; destruct Hv as [Hv ?]).
-    apply String.eqb_eq in Hv. apply String.eqb_eq in H1. apply String.eqb_eq in H0.
-    exists v. split; [exact Hin|]. split; [exact Hv|]. split; [exact H1|]. split; [exact H0|].
-    intro G. subst use_guarded. simpl in H. apply String.eqb_eq. exact H.
-  - unfold has_validator in H. apply existsb_exists in H. destruct H as [v [Hin Hv]].
-    repeat (apply andb_true_iff in Hv; destruct Hv as [Hv ?]).
-    apply String.eqb_eq in Hv. apply String.eqb_eq in H1. apply String.eqb_eq in H0.
-    exists v. split; [exact Hin|]. split; [exact Hv|]. split; [exact H1|]. split; [exact H0|].
-    simpl in H. apply String.eqb_eq. exact H.
+    destruct (has_validator_spec _ _ _ _ Hv) as [v [H1 [H2 [H3 [H4 _]]]]]. exists v. repeat split; assumption.
+  - destruct (has_validator_spec _ _ _ _ H) as [v [H1 [H2 [H3 [H4 H5]]]]]. exists v. repeat split; try assumption.
+    apply H5. reflexivity.
+Qed.
+
+Lemma block_validated_spec b : block_validated b = true ->
+  In (cb_type b) validate_methods /\
+  exists c, In c validate_calls /\ vc_owner c = cb_struct b /\ vc_field c = cb_field b /\
+            vc_func c = validate_func_of (cb_struct b) /\ vc_error_returned c = true.
+Proof.
+  unfold block_validated. intro H. apply andb_true_iff in H. destruct H as [Hm He]. split.
+  - apply mem_str_In. exact Hm.
+  - apply existsb_exists in He. destruct He as [c [Hin Hc]].
+    apply andb_true_iff in Hc. destruct Hc as [Hc Hr].
+    apply andb_true_iff in Hc. destruct Hc as [Hc Hf].
+    apply andb_true_iff in Hc. destruct Hc as [Ho Hfi].
+    apply String.eqb_eq in Ho. apply String.eqb_eq in Hfi. apply String.eqb_eq in Hf.
+    exists c. repeat split; assumption.
 Qed.
